@@ -276,6 +276,9 @@ func c16Scenarios(thorough bool) []c16Scenario {
 			threads: [][]string{{"get:A", "enc", "tick:601", "dec", "close"}, {"get:A", "enc", "close"}}},
 		c16Scenario{name: "G2b-churn-slru", policy: "slru", cap: 1,
 			threads: [][]string{{"get:A", "enc", "close"}, {"get:A", "enc", "close"}, {"get:B", "close"}}},
+		// no eviction policy named: the session cache's own default
+		c16Scenario{name: "G1-evict-while-held-default-policy", policy: "", cap: 1,
+			threads: [][]string{{"get:A", "enc", "dec", "close"}, {"get:B", "enc", "close"}}},
 	)
 	if thorough {
 		out = append(out,
